@@ -202,8 +202,27 @@ fn names_of_kinds(p: &Prog, t: &Tx) -> Vec<String> {
 pub fn mutate(r: &mut Rng, p: &mut Prog) -> String {
     let ti = r.below(p.txs.len() as u64) as usize;
     let names = names_of_kinds(p, &p.txs[ti]);
-    let kind = r.below(14);
+    let kind = r.below(16);
     match kind {
+        14 | 15 => {
+            // a second input block whose name is that of an existing one, up to case
+            let t = &mut p.txs[ti];
+            if let Some(first) = t.inputs.first().cloned() {
+                let mut copy = first.clone();
+                copy.name = match r.below(3) {
+                    0 => first.name.clone(),
+                    1 => first.name.to_uppercase(),
+                    _ => {
+                        let mut cs: Vec<char> = first.name.chars().collect();
+                        cs[0] = cs[0].to_ascii_uppercase();
+                        cs.into_iter().collect()
+                    }
+                };
+                t.inputs.push(copy);
+                return "input_name_collision".into();
+            }
+            return "none".into();
+        }
         12 | 13 => {
             // an asset whose name is that of a built-in function: the analyzer and lowering must
             // agree on what a call of that name is
